@@ -119,11 +119,8 @@ def parseOverflowPage (v : VersionIf) (number : Nat) (remaining : Int) : Py Ovfl
     if last ∧ next ≠ 0 then .error .parseError
     else
       let unallocStart : Int := if last then remaining + Generated.OVERFLOW_HEADER_LENGTH else v.pageSize
-      if next ≠ 0 then
-        let nv ← v.pageVersion next
-        if pv ≠ nv then .error .parseError
-        else pure ⟨number, next, (unallocStart - Generated.OVERFLOW_HEADER_LENGTH).toNat, pv⟩
-      else pure ⟨number, next, (unallocStart - Generated.OVERFLOW_HEADER_LENGTH).toNat, pv⟩
+      -- no version check between the pages of a chain (a chain may span versions)
+      pure ⟨number, next, (unallocStart - Generated.OVERFLOW_HEADER_LENGTH).toNat, pv⟩
 
 /-- the `while overflow_page.next_overflow_page_number` loop of the cell constructors.
 `fuel` bounds the number of pages; the loop itself is bounded because `remaining` drops by
